@@ -540,5 +540,77 @@ example :
     | k + 1, 1, hlt, _, _, _, _ => omega
     | _, 0, hlt, _, _, _, _ => omega
 
+/-! ### what one reported rename did -/
+
+/-- **a successful in-place rename moves exactly its source**: on a well-formed link-free tree, a name-mode
+    call that succeeds (with or without override) leaves a tree consisting of the source's entry — same
+    identity, kind and content — at the destination path, plus every other entry except whatever was at the
+    destination, each at its own path.  With `success_reports_exactly_the_plan` this is what "the plan was
+    applied" means rename by rename. -/
+theorem name_call_effect (s : RealState) (hw : WF s.fs) (hl : LinkFree s.fs) (hfault : s.faultAt = none)
+    (dir : APath) (src dst : PurePath) (ov : Bool) (hG : C05.NameCall s.fs dir src dst)
+    (hok : (fileRenamer s dir src dst ov).2 = none) :
+    ∃ ea, s.fs.find (absKey dir src) = some ea ∧ ea.kind ≠ .dir ∧
+      ∀ e', e' ∈ (fileRenamer s dir src dst ov).1.fs ↔
+        (e' = { ea with path := absKey dir dst } ∨ (e' ∈ s.fs ∧ e'.path ≠ absKey dir src ∧ e'.path ≠ absKey dir dst)) := by
+  obtain ⟨sp, n, m, rfl, rfl, hnm, hn, hm, hsp, hanc, hna, hnb⟩ := hG
+  have hab : dir ++ sp ++ [n] ≠ dir ++ sp ++ [m] := by
+    intro h; have := List.append_cancel_left h; simp at this; exact hnm this
+  have hplain : ∀ x : Name, x ≠ dotdot → ∀ c ∈ sp ++ [x], c ≠ dotdot := by
+    intro x hx c hc
+    rw [List.mem_append, List.mem_singleton] at hc
+    rcases hc with hc | hc
+    · exact hsp c hc
+    · rw [hc]; exact hx
+  have hwalk : ∀ x : Name, x ≠ dotdot → walkPath s.fs dir ⟨false, sp ++ [x]⟩ = .ok (dir ++ sp ++ [x]) := by
+    intro x hx
+    unfold walkPath
+    simp only [Bool.false_eq_true, if_false]
+    rw [walk_plain hl (sp ++ [x]) dir (hplain x hx)]
+    · simp
+    · intro k hk
+      have hk' : k ≤ sp.length := by simp at hk; omega
+      rw [C05.take_append_le sp x k hk']
+      exact hanc k hk'
+  have hkey : ∀ x : Name, x ≠ dotdot → absKey dir ⟨false, sp ++ [x]⟩ = dir ++ sp ++ [x] := by
+    intro x hx
+    unfold absKey
+    simp only [Bool.false_eq_true, if_false]
+    rw [lexNorm_plain _ _ (hplain x hx)]; simp
+  have hpar : parentOf ⟨false, sp ++ [n]⟩ = parentOf ⟨false, sp ++ [m]⟩ := by simp [parentOf]
+  rw [hkey n hn, hkey m hm]
+  have ha0 : dir ++ sp ++ [n] ≠ [] := by simp
+  unfold fileRenamer at hok ⊢
+  split at hok
+  · simp at hok
+  · rename_i hE
+    rw [if_neg hE]
+    rw [if_neg (by simpa using hpar)] at hok ⊢
+    unfold renameRel at hok ⊢
+    rw [hwalk n hn, hwalk m hm] at hok ⊢
+    simp only at hok ⊢
+    unfold RealState.prim at hok ⊢
+    simp only [hfault] at hok ⊢
+    rw [if_neg (by simp)] at hok ⊢
+    cases hfa : s.fs.find (dir ++ sp ++ [n]) with
+    | none =>
+      have hren : renameAbs s.fs (dir ++ sp ++ [n]) (dir ++ sp ++ [m]) = .error .ENOENT := by
+        unfold renameAbs; rw [hfa]
+      rw [hren] at hok
+      simp at hok
+    | some ea =>
+      have hka : ea.kind ≠ .dir := by
+        intro hk
+        unfold isDirAt at hna
+        rw [if_neg ha0, hfa] at hna
+        simp [hk] at hna
+      have hpd : isDirAt s.fs (dir ++ sp ++ [m]).dropLast = true := by
+        rw [List.dropLast_concat]
+        have := hanc sp.length (Nat.le_refl _)
+        simpa using this
+      obtain ⟨fs', hren, _, hmem⟩ := renameAbs_leaf hw hfa hka hab (by simp) hpd hnb
+      rw [hren]
+      exact ⟨ea, rfl, hka, hmem⟩
+
 end C02
 end Tempren
